@@ -289,7 +289,7 @@ func (v *Verifier) verifyFunc(name string) *FuncResult {
 		res.ContractTxt = con.Text
 	}
 	x := &Exec{v: v, fn: fn, con: con, syms: map[string]string{}, heapSorts: map[string]string{}, locfns: map[string]locFn{},
-		strs: map[string]int{}, maxPaths: 4000, ptrArrays: map[string]string{}}
+		strs: map[string]int{}, maxPaths: 4000, ptrArrays: map[string]string{}, defined: map[string]bool{}}
 	if con != nil {
 		x.props = con.Props
 	}
@@ -308,6 +308,7 @@ func (v *Verifier) verifyFunc(name string) *FuncResult {
 	st := &State{x: x, heap: map[string]string{}, ghost: map[string]string{}, now: "now!0"}
 	fr := &Frame{fn: fn, vals: map[ssa.Value]Val{}, block: nil}
 	st.frames = []*Frame{fr}
+	st.assume("(>= now!0 0)") // package-level objects carry birth -1
 	if len(fn.Blocks) == 0 {
 		res.Errors = append(res.Errors, "no body")
 		return res
@@ -528,10 +529,10 @@ func (x *Exec) header(texts []string) string {
 			if s == "|mem.ptr#0|" || s == "|map.ptr#0|" {
 				fmt.Fprintf(&sb, "(assert (forall ((a Int) (i Int)) (! (or (= (select (select %s a) i) 0) (< (birth (select (select %s a) i)) now!0)) :pattern ((select (select %s a) i)))))\n", s, s, s)
 			}
-			if strings.HasPrefix(s, "|fbytes#") {
+			if strings.HasPrefix(s, "|fbytes#") && !x.defined[s] {
 				fmt.Fprintf(&sb, "(assert (forall ((a Int) (i Int)) (! (and (<= 0 (select (select %s a) i)) (< (select (select %s a) i) 256)) :pattern ((select (select %s a) i)))))\n", s, s, s)
 			}
-			if strings.HasPrefix(s, "|mem.byte#") {
+			if strings.HasPrefix(s, "|mem.byte#") && !x.defined[s] {
 				// type invariant of byte memory: every cell holds a value in 0..255
 				fmt.Fprintf(&sb, "(assert (forall ((a Int) (i Int)) (! (and (<= 0 (select (select %s a) i)) (< (select (select %s a) i) 256)) :pattern ((select (select %s a) i)))))\n", s, s, s)
 			}
